@@ -3,7 +3,10 @@
    IPFS client / gateway, URL-parser oracle, and ANY behaviour `cc` of the
    cachecontrol library) and ALL histories (`run cfg ops = fold_left (step cfg)
    ops init`), proved by induction over the history; the `Example`s show the
-   hypotheses are satisfiable. *)
+   hypotheses are satisfiable.  The property theorems are stated for histories in
+   which no response carries a rel=alternate Link header (`link_free_ops`), for every
+   fuel; with such headers two of them fail — witnesses `link_reuse_refuted`,
+   `link_diverges_refuted` at the end. *)
 From Coq Require Import ZArith NArith List String Ascii Bool Lia.
 From GSP Require Import Base.Prelude Loader.Model.
 Import ListNotations.
@@ -35,8 +38,17 @@ Proof.
 Qed.
 
 (* the only kind of response that carries a usable document: 200 with a JSON body *)
-Definition ok_resp (d : doc) (p : policy) : response := RResp 200 (BJson d) p.
+Definition ok_resp (d : doc) (p : policy) : response := RResp 200 (BJson d) p None.
 Definition failing (r : response) : Prop := forall d p, r <> ok_resp d p.
+
+(* no response carries a rel=alternate Link header: in a state, in a history *)
+Definition link_free (st : state) : Prop :=
+  forall k code b p t, origin st k <> RResp code b p (Some t).
+Definition link_free_ops (ops : list op) : Prop :=
+  forall u code b p t, ~ In (Serve u (RResp code b p (Some t))) ops.
+
+Lemma link_free_app_l a b : link_free_ops (a ++ b) -> link_free_ops a.
+Proof. intros H u code bd p t Hin. apply (H u code bd p t). apply in_or_app. left. exact Hin. Qed.
 
 (* ---- the routing decision table, written independently of `load` ---- *)
 Inductive route := ToHttp (k : url) | ToNode (rest : string) | Reject.
@@ -58,14 +70,21 @@ Definition chan_key (cfg : config) (u : url) : option (channel * url) :=
   | Reject => None
   end.
 
-Lemma load_route cfg st u :
+(* d.LoadDocument as seen from inside a load running with `fuel` *)
+Definition recf (fuel : nat) (cfg : config) : state -> url -> state * res doc :=
+  fun st' u' => match fuel with O => (st', Diverge) | S f => load f cfg st' u' end.
+
+Lemma load_unfold fuel cfg st u : load fuel cfg st u = load_with (recf fuel cfg) cfg st u.
+Proof. destruct fuel; reflexivity. Qed.
+
+Lemma load_route fuel cfg st u :
   match route_of cfg u with
-  | ToHttp k => load cfg st u = load_http cfg st k
-  | ToNode r => load cfg st u = load_node cfg st r
-  | Reject => exists t, load cfg st u = (st, Err t)
+  | ToHttp k => load fuel cfg st u = load_http (recf fuel cfg) cfg st k
+  | ToNode r => load fuel cfg st u = load_node cfg st r
+  | Reject => exists t, load fuel cfg st u = (st, Err t)
   end.
 Proof.
-  unfold route_of, load.
+  rewrite load_unfold. unfold route_of, load_with.
   destruct (has_prefix "http://" u), (has_prefix "https://" u), (has_prefix "ipfs://" u);
     cbn [orb]; try reflexivity; try (eexists; reflexivity);
     destruct (ipfs_client cfg); try reflexivity;
@@ -139,21 +158,24 @@ Inductive http_step (cfg : config) (st : state) (u : url) : state -> res doc -> 
 
 Lemma failing_transport : failing RTransport.
 Proof. intros d p H. discriminate. Qed.
-Lemma failing_status code b p : (code =? 200) = false -> failing (RResp code b p).
+Lemma failing_status code b p alt : (code =? 200) = false -> failing (RResp code b p alt).
 Proof. intros H d q E. inversion E. subst. discriminate. Qed.
-Lemma failing_garbage code p : failing (RResp code BGarbage p).
+Lemma failing_garbage code p alt : failing (RResp code BGarbage p alt).
 Proof. intros d q E. inversion E. Qed.
 
-Lemma fetch_spec cfg st u :
-  http_step cfg st u (fst (fetch cfg st u)) (snd (fetch cfg st u)).
+Lemma fetch_spec rec cfg st u :
+  link_free st ->
+  http_step cfg st u (fst (fetch rec cfg st u)) (snd (fetch rec cfg st u)).
 Proof.
-  unfold fetch.
+  intros Hlf. unfold fetch.
   destruct (url_ok cfg u) eqn:Hu; simpl; [|apply HS_quiet_err].
-  destruct (origin st u) as [code b p|] eqn:Ho.
+  destruct (origin st u) as [code b p alt|] eqn:Ho.
   - destruct (code =? 200) eqn:Hcode; simpl.
     + apply Z.eqb_eq in Hcode. subst code.
+      destruct alt as [t|]; [exfalso; apply (Hlf u 200 b p t Ho)|].
       destruct b as [d|]; simpl.
-      * change (RResp 200 (BJson d) p) with (ok_resp d p) in *.
+      * change (RResp 200 (BJson d) p None) with (ok_resp d p) in *.
+        unfold store_and_return.
         destruct (storable cfg p) eqn:Hc; simpl; [|apply (HS_unstored _ _ _ d p Ho)].
         destruct (cache_on cfg) eqn:Hon; simpl; [|apply (HS_unstored _ _ _ d p Ho)].
         unfold engine_set.
@@ -166,20 +188,22 @@ Proof.
   - simpl. apply HS_fail; [exact Ho|apply failing_transport].
 Qed.
 
-Lemma load_http_spec cfg st u :
-  http_step cfg st u (fst (load_http cfg st u)) (snd (load_http cfg st u)).
+Lemma load_http_spec rec cfg st u :
+  link_free st ->
+  http_step cfg st u (fst (load_http rec cfg st u)) (snd (load_http rec cfg st u)).
 Proof.
-  unfold load_http.
-  destruct (cache_on cfg) eqn:Hon; [|apply fetch_spec].
+  intros Hlf. unfold load_http.
+  destruct (cache_on cfg) eqn:Hon; [|apply fetch_spec; exact Hlf].
   destruct (engine_get cfg st u) as [d e| |] eqn:Hg.
   - destruct (after e (now st)) eqn:Ha; simpl.
     + apply (HS_hit _ _ _ d e Hon Hg Ha).
-    + apply fetch_spec.
-  - apply fetch_spec.
+    + apply fetch_spec; exact Hlf.
+  - apply fetch_spec; exact Hlf.
   - simpl. apply HS_quiet_err.
 Qed.
 
 Lemma load_node_eq cfg st r :
+  link_free st ->
   fst (load_node cfg st r) = log_req st (CNode, node_key r, now st, origin st (node_key r)) /\
   match snd (load_node cfg st r) with
   | Ok d => exists p, origin st (node_key r) = ok_resp d p
@@ -187,15 +211,79 @@ Lemma load_node_eq cfg st r :
   | _ => False
   end.
 Proof.
-  unfold load_node.
-  destruct (origin st (node_key r)) as [code b p|] eqn:Ho; simpl.
-  - destruct (code =? 200) eqn:Hcode; simpl.
+  intros Hlf. unfold load_node.
+  destruct (origin st (node_key r)) as [code b p alt|] eqn:Ho; simpl.
+  - destruct alt as [t|]; [exfalso; apply (Hlf _ _ _ _ _ Ho)|].
+    destruct (code =? 200) eqn:Hcode; simpl.
     + apply Z.eqb_eq in Hcode. subst code.
       destruct b as [d|]; simpl; (split; [reflexivity|]).
       * exists p. reflexivity.
       * apply failing_garbage.
     + split; [reflexivity|apply failing_status; exact Hcode].
   - split; [reflexivity|apply failing_transport].
+Qed.
+
+(* ---- the clock and the origin are never touched by a load (with or without links) ---- *)
+Definition keeps (rec : state -> url -> state * res doc) : Prop :=
+  forall st u, now (fst (rec st u)) = now st /\ origin (fst (rec st u)) = origin st.
+
+Lemma store_and_return_keeps cfg st u p t0 d :
+  now (fst (store_and_return cfg st u p t0 d)) = now st /\
+  origin (fst (store_and_return cfg st u p t0 d)) = origin st.
+Proof.
+  unfold store_and_return. destruct (storable cfg p && cache_on cfg); [|auto].
+  unfold engine_set. destruct (set_fails cfg); [auto|].
+  destruct (assoc String.eqb u (embedded cfg)); simpl; auto.
+Qed.
+
+Lemma fetch_keeps rec cfg : keeps rec -> keeps (fetch rec cfg).
+Proof.
+  intros Hrec st u. unfold fetch.
+  destruct (url_ok cfg u); simpl; [|auto].
+  destruct (origin st u) as [code b p alt|]; [|simpl; auto].
+  destruct (code =? 200); simpl; [|auto].
+  destruct alt as [t|].
+  - pose proof (Hrec (log_req st (CHttp, u, now st, RResp code b p (Some t))) t) as [H1 H2].
+    destruct (rec (log_req st (CHttp, u, now st, RResp code b p (Some t))) t) as [st2 r2].
+    simpl in H1, H2.
+    destruct r2 as [d|e|w|]; simpl; try (split; assumption).
+    destruct (store_and_return_keeps cfg st2 u p (now st) d) as [H3 H4].
+    rewrite H3, H4. split; assumption.
+  - destruct b as [d|]; [|simpl; auto].
+    destruct (store_and_return_keeps cfg (log_req st (CHttp, u, now st, RResp code (BJson d) p None))
+                                     u p (now st) d) as [H3 H4].
+    rewrite H3, H4. simpl. auto.
+Qed.
+
+Lemma load_http_keeps rec cfg : keeps rec -> keeps (load_http rec cfg).
+Proof.
+  intros Hrec st u. unfold load_http.
+  destruct (cache_on cfg); [|apply fetch_keeps; exact Hrec].
+  destruct (engine_get cfg st u) as [d e| |]; [|apply fetch_keeps; exact Hrec|simpl; auto].
+  destruct (after e (now st)); [simpl; auto|apply fetch_keeps; exact Hrec].
+Qed.
+
+Lemma load_node_keeps cfg : keeps (load_node cfg).
+Proof.
+  intros st r. unfold load_node.
+  destruct (origin st (node_key r)) as [code b p alt|]; [|simpl; auto].
+  destruct (code =? 200); simpl; [|auto]. destruct b; simpl; auto.
+Qed.
+
+Lemma load_with_keeps rec cfg : keeps rec -> keeps (load_with rec cfg).
+Proof.
+  intros Hrec st u. unfold load_with.
+  destruct (has_prefix "http://" u || has_prefix "https://" u); [apply load_http_keeps; exact Hrec|].
+  destruct (has_prefix "ipfs://" u); [|simpl; auto].
+  destruct (ipfs_client cfg); [apply load_node_keeps|].
+  destruct (negb (String.eqb (gateway cfg) "")); [apply load_http_keeps; exact Hrec|simpl; auto].
+Qed.
+
+Lemma load_keeps fuel cfg : keeps (load fuel cfg).
+Proof.
+  induction fuel as [|f IH]; intros st u; rewrite load_unfold; apply load_with_keeps.
+  - intros st' u'. simpl. auto.
+  - exact IH.
 Qed.
 
 (* ---- frame facts ---- *)
@@ -208,22 +296,25 @@ Proof.
     repeat split; auto; right; rewrite Ho; reflexivity.
 Qed.
 
-Lemma load_frame cfg st u :
-  now (fst (load cfg st u)) = now st /\ origin (fst (load cfg st u)) = origin st /\
-  (reqlog (fst (load cfg st u)) = reqlog st \/
+Lemma load_frame fuel cfg st u :
+  link_free st ->
+  now (fst (load fuel cfg st u)) = now st /\ origin (fst (load fuel cfg st u)) = origin st /\
+  (reqlog (fst (load fuel cfg st u)) = reqlog st \/
    exists c k, chan_key cfg u = Some (c, k) /\
-               reqlog (fst (load cfg st u)) = (c, k, now st, origin st k) :: reqlog st).
+               reqlog (fst (load fuel cfg st u)) = (c, k, now st, origin st k) :: reqlog st).
 Proof.
-  pose proof (load_route cfg st u) as Hr. unfold chan_key.
+  intros Hlf. pose proof (load_route fuel cfg st u) as Hr. unfold chan_key.
   destruct (route_of cfg u) as [k|r|].
-  - rewrite Hr. destruct (http_step_frame _ _ _ _ _ (load_http_spec cfg st k)) as [H1 [H2 H3]].
+  - rewrite Hr.
+    destruct (http_step_frame _ _ _ _ _ (load_http_spec (recf fuel cfg) cfg st k Hlf)) as [H1 [H2 H3]].
     repeat split; auto. destruct H3 as [H3|H3]; [left; exact H3|right; eauto].
-  - rewrite Hr. destruct (load_node_eq cfg st r) as [H1 _]. rewrite H1. simpl.
+  - rewrite Hr. destruct (load_node_eq cfg st r Hlf) as [H1 _]. rewrite H1. simpl.
     repeat split; auto. right; eauto.
   - destruct Hr as [t Hr]. rewrite Hr. simpl. auto.
 Qed.
 
-Lemma run_app cfg pre post : run cfg (pre ++ post) = fold_left (step cfg) post (run cfg pre).
+Lemma run_app fuel cfg pre post :
+  run fuel cfg (pre ++ post) = fold_left (step fuel cfg) post (run fuel cfg pre).
 Proof. unfold run. apply fold_left_app. Qed.
 
 (* ---- the clock and the origin are functions of the history alone ---- *)
@@ -234,20 +325,44 @@ Definition served (ops : list op) (k : url) : response :=
   fold_left (fun r o => match o with Serve u r' => if String.eqb k u then r' else r | _ => r end)
             ops not_found.
 
-Lemma now_run cfg ops : now (run cfg ops) = elapsed ops.
+Lemma now_run fuel cfg ops : now (run fuel cfg ops) = elapsed ops.
 Proof.
   induction ops as [|o l IH] using rev_ind; [reflexivity|].
   rewrite run_app. unfold elapsed. rewrite fold_left_app. fold (elapsed l). rewrite <- IH. simpl.
   destruct o as [u r|u|dt]; simpl; try reflexivity.
-  destruct (load_frame cfg (run cfg l) u) as [H _]. exact H.
+  destruct (load_keeps fuel cfg (run fuel cfg l) u) as [H _]. exact H.
 Qed.
 
-Lemma origin_run cfg ops k : origin (run cfg ops) k = served ops k.
+Lemma origin_run fuel cfg ops k : origin (run fuel cfg ops) k = served ops k.
 Proof.
   induction ops as [|o l IH] using rev_ind; [reflexivity|].
   rewrite run_app. unfold served. rewrite fold_left_app. fold (served l k). rewrite <- IH. simpl.
   destruct o as [u r|u|dt]; simpl; try reflexivity.
-  destruct (load_frame cfg (run cfg l) u) as [_ [H _]]. rewrite H. reflexivity.
+  destruct (load_keeps fuel cfg (run fuel cfg l) u) as [_ H]. rewrite H. reflexivity.
+Qed.
+
+(* what the origin serves is the initial 404 or the argument of some Serve of the history *)
+Lemma served_cases ops k : served ops k = not_found \/ exists u, In (Serve u (served ops k)) ops.
+Proof.
+  induction ops as [|o l IH] using rev_ind; [left; reflexivity|].
+  unfold served. rewrite fold_left_app. fold (served l k). simpl.
+  destruct o as [u r|u|dt].
+  - destruct (String.eqb k u).
+    + right. exists u. apply in_or_app. right. left. reflexivity.
+    + destruct IH as [IH|[u0 IH]]; [left; exact IH|].
+      right. exists u0. apply in_or_app. left. exact IH.
+  - destruct IH as [IH|[u0 IH]]; [left; exact IH|].
+    right. exists u0. apply in_or_app. left. exact IH.
+  - destruct IH as [IH|[u0 IH]]; [left; exact IH|].
+    right. exists u0. apply in_or_app. left. exact IH.
+Qed.
+
+Lemma link_free_run fuel cfg ops : link_free_ops ops -> link_free (run fuel cfg ops).
+Proof.
+  intros Hlf k code b p t Ho. rewrite origin_run in Ho.
+  destruct (served_cases ops k) as [Hs|[u Hs]].
+  - rewrite Hs in Ho. discriminate.
+  - rewrite Ho in Hs. apply (Hlf u code b p t Hs).
 Qed.
 
 Lemma elapsed_app pre post : elapsed pre <= elapsed (pre ++ post).
@@ -273,20 +388,23 @@ Proof.
   rewrite <- app_assoc. simpl. auto.
 Qed.
 
-Lemma reqlog_history cfg ops c k t r :
-  In (c, k, t, r) (reqlog (run cfg ops)) -> requested cfg ops c k t r.
+Lemma reqlog_history fuel cfg ops c k t r :
+  link_free_ops ops ->
+  In (c, k, t, r) (reqlog (run fuel cfg ops)) -> requested cfg ops c k t r.
 Proof.
-  induction ops as [|o l IH] using rev_ind; [intros []|].
+  induction ops as [|o l IH] using rev_ind; [intros _ []|].
+  intros Hlf. pose proof (link_free_app_l _ _ Hlf) as Hlf'.
   rewrite run_app. simpl. intros Hin.
   destruct o as [u r0|u|dt]; simpl in Hin;
-    try (apply requested_snoc; apply IH; exact Hin).
-  destruct (load_frame cfg (run cfg l) u) as [_ [_ [Hl|[c0 [k0 [Hck Hl]]]]]]; rewrite Hl in Hin.
-  - apply requested_snoc; apply IH; exact Hin.
+    try (apply requested_snoc; apply (IH Hlf'); exact Hin).
+  destruct (load_frame fuel cfg (run fuel cfg l) u (link_free_run fuel cfg l Hlf'))
+    as [_ [_ [Hl|[c0 [k0 [Hck Hl]]]]]]; rewrite Hl in Hin.
+  - apply requested_snoc; apply (IH Hlf'); exact Hin.
   - destruct Hin as [Heq|Hin].
     + inversion Heq. subst. exists l, u, []. repeat split; auto.
       * symmetry. apply now_run.
       * symmetry. apply origin_run.
-    + apply requested_snoc; apply IH; exact Hin.
+    + apply requested_snoc; apply (IH Hlf'); exact Hin.
 Qed.
 
 (* ---- the cache invariant ---- *)
@@ -317,14 +435,15 @@ Proof.
   - apply (justified_weaken cfg st); [apply Hinv; exact Hin|simpl; auto].
 Qed.
 
-Lemma step_inv cfg st o : inv cfg st -> inv cfg (step cfg st o).
+Lemma step_inv fuel cfg st o :
+  link_free st -> inv cfg st -> inv cfg (step fuel cfg st o).
 Proof.
-  intros Hinv. destruct o as [u r|u|dt]; simpl.
+  intros Hlf Hinv. destruct o as [u r|u|dt]; simpl.
   - exact Hinv.
-  - pose proof (load_route cfg st u) as Hr.
+  - pose proof (load_route fuel cfg st u) as Hr.
     destruct (route_of cfg u) as [k|r|].
-    + rewrite Hr. apply (http_step_inv cfg st k _ _ Hinv (load_http_spec cfg st k)).
-    + rewrite Hr. destruct (load_node_eq cfg st r) as [H1 _]. rewrite H1.
+    + rewrite Hr. apply (http_step_inv cfg st k _ _ Hinv (load_http_spec _ cfg st k Hlf)).
+    + rewrite Hr. destruct (load_node_eq cfg st r Hlf) as [H1 _]. rewrite H1.
       intros k0 d0 e0 Hin. simpl in Hin.
       apply (justified_weaken cfg st); [apply Hinv; exact Hin|simpl; auto].
     + destruct Hr as [t Hr]. rewrite Hr. exact Hinv.
@@ -332,14 +451,12 @@ Proof.
     apply (justified_weaken cfg st); [apply Hinv; exact Hin|simpl; auto].
 Qed.
 
-Lemma fold_inv cfg ops st : inv cfg st -> inv cfg (fold_left (step cfg) ops st).
+Theorem run_inv fuel cfg ops : link_free_ops ops -> inv cfg (run fuel cfg ops).
 Proof.
-  revert st. induction ops as [|o t IH]; intros st H; simpl; [exact H|].
-  apply IH. apply step_inv. exact H.
+  induction ops as [|o l IH] using rev_ind; intros Hlf; [intros k d e []|].
+  pose proof (link_free_app_l _ _ Hlf) as Hlf'.
+  rewrite run_app. simpl. apply step_inv; [apply link_free_run; exact Hlf'|apply IH; exact Hlf'].
 Qed.
-
-Theorem run_inv cfg ops : inv cfg (run cfg ops).
-Proof. apply fold_inv. intros k d e []. Qed.
 
 Lemma chan_key_http cfg u k : chan_key cfg u = Some (CHttp, k) -> route_of cfg u = ToHttp k.
 Proof.
@@ -347,27 +464,29 @@ Proof.
 Qed.
 
 (* C19_inv: every cache entry (k -> d, e) of every reachable state is the 200/JSON answer the
-   origin gave at k, with headers p the library accepts for storing, when an earlier Load of
+   origin gave at k, with headers p the loader accepts for storing, when an earlier Load of
    the history (routed to the HTTP client under key k) was executed; e is that moment plus the
    lifetime the library computed (the zero time when it gives none); and k is not an embedded URL. *)
-Theorem cache_from_history cfg ops k d e :
-  In (k, (d, e)) (cache (run cfg ops)) ->
+Theorem cache_from_history fuel cfg ops k d e :
+  link_free_ops ops ->
+  In (k, (d, e)) (cache (run fuel cfg ops)) ->
   assoc String.eqb k (embedded cfg) = None /\
   exists pre u post p,
     ops = pre ++ Load u :: post /\ route_of cfg u = ToHttp k /\
-    served pre k = RResp 200 (BJson d) p /\ storable cfg p = true /\
+    served pre k = RResp 200 (BJson d) p None /\ storable cfg p = true /\
     e = expiry_of (cc_lifetime cfg p) (elapsed pre).
 Proof.
-  intros Hin. destruct (run_inv cfg ops k d e Hin) as [He [t [p [Hl [Hc Hx]]]]].
+  intros Hlf Hin. destruct (run_inv fuel cfg ops Hlf k d e Hin) as [He [t [p [Hl [Hc Hx]]]]].
   split; [exact He|].
-  destruct (reqlog_history cfg ops CHttp k t _ Hl) as [pre [u [post [H1 [H2 [H3 H4]]]]]].
+  destruct (reqlog_history fuel cfg ops CHttp k t _ Hlf Hl) as [pre [u [post [H1 [H2 [H3 H4]]]]]].
   exists pre, u, post, p. subst t. repeat split; auto. apply chan_key_http. exact H2.
 Qed.
 
-Theorem embedded_never_cached cfg ops k d d' e :
-  assoc String.eqb k (embedded cfg) = Some d -> ~ In (k, (d', e)) (cache (run cfg ops)).
+Theorem embedded_never_cached fuel cfg ops k d d' e :
+  link_free_ops ops ->
+  assoc String.eqb k (embedded cfg) = Some d -> ~ In (k, (d', e)) (cache (run fuel cfg ops)).
 Proof.
-  intros He Hin. destruct (run_inv cfg ops k d' e Hin) as [Hn _]. congruence.
+  intros Hlf He Hin. destruct (run_inv fuel cfg ops Hlf k d' e Hin) as [Hn _]. congruence.
 Qed.
 
 (* ---- embedded documents ---- *)
@@ -394,12 +513,13 @@ Proof.
   unfold engine_set. rewrite Hs, He. reflexivity.
 Qed.
 
-(* an embedded document is returned in EVERY state, and the state (cache, request log) is unchanged *)
-Theorem embedded_served cfg st u k d :
+(* an embedded document is returned in EVERY state (whatever the origin serves, links included),
+   and the state (cache, request log) is unchanged *)
+Theorem embedded_served fuel cfg st u k d :
   route_of cfg u = ToHttp k -> assoc String.eqb k (embedded cfg) = Some d ->
-  load cfg st u = (st, Ok d).
+  load fuel cfg st u = (st, Ok d).
 Proof.
-  intros Hr He. pose proof (load_route cfg st u) as Hl. rewrite Hr in Hl. rewrite Hl.
+  intros Hr He. pose proof (load_route fuel cfg st u) as Hl. rewrite Hr in Hl. rewrite Hl.
   destruct (embedded_mode cfg k d He) as [Hon _].
   unfold load_http. rewrite Hon, (embedded_get cfg st k d He).
   unfold after. replace (now st <? now st + 3600) with true; [reflexivity|].
@@ -426,35 +546,37 @@ Proof.
 Qed.
 
 (* where a returned document comes from *)
-Definition from_origin (cfg : config) (ops : list op) (u : url) (d : doc) (st' : state) : Prop :=
-  exists c k p, chan_key cfg u = Some (c, k) /\ served ops k = RResp 200 (BJson d) p /\
-                reqlog st' = (c, k, elapsed ops, RResp 200 (BJson d) p) :: reqlog (run cfg ops).
+Definition from_origin (fuel : nat) (cfg : config) (ops : list op) (u : url) (d : doc) (st' : state) : Prop :=
+  exists c k p, chan_key cfg u = Some (c, k) /\ served ops k = RResp 200 (BJson d) p None /\
+                reqlog st' = (c, k, elapsed ops, RResp 200 (BJson d) p None) :: reqlog (run fuel cfg ops).
 
-Definition from_cache (cfg : config) (ops : list op) (u : url) (d : doc) (st' : state) : Prop :=
+Definition from_cache (fuel : nat) (cfg : config) (ops : list op) (u : url) (d : doc) (st' : state) : Prop :=
   exists k pre u0 post p l,
     route_of cfg u = ToHttp k /\ assoc String.eqb k (embedded cfg) = None /\
     ops = pre ++ Load u0 :: post /\ route_of cfg u0 = ToHttp k /\
-    served pre k = RResp 200 (BJson d) p /\ storable cfg p = true /\
+    served pre k = RResp 200 (BJson d) p None /\ storable cfg p = true /\
     cc_lifetime cfg p = Some l /\ elapsed ops < elapsed pre + l /\
-    In (k, (d, TAt (elapsed pre + l))) (cache (run cfg ops)) /\
-    st' = run cfg ops.
+    In (k, (d, TAt (elapsed pre + l))) (cache (run fuel cfg ops)) /\
+    st' = run fuel cfg ops.
 
-Definition from_embedded (cfg : config) (ops : list op) (u : url) (d : doc) (st' : state) : Prop :=
+Definition from_embedded (fuel : nat) (cfg : config) (ops : list op) (u : url) (d : doc) (st' : state) : Prop :=
   exists k, route_of cfg u = ToHttp k /\ assoc String.eqb k (embedded cfg) = Some d /\
-            st' = run cfg ops.
+            st' = run fuel cfg ops.
 
-Lemma http_step_source cfg ops u k st' d :
+Lemma http_step_source fuel cfg ops u k st' d :
+  link_free_ops ops ->
   route_of cfg u = ToHttp k ->
-  http_step cfg (run cfg ops) k st' (Ok d) ->
-  from_origin cfg ops u d st' \/ from_cache cfg ops u d st' \/ from_embedded cfg ops u d st'.
+  http_step cfg (run fuel cfg ops) k st' (Ok d) ->
+  from_origin fuel cfg ops u d st' \/ from_cache fuel cfg ops u d st' \/ from_embedded fuel cfg ops u d st'.
 Proof.
-  intros Hr H.
+  intros Hlf Hr H.
   assert (Hck : chan_key cfg u = Some (CHttp, k)) by (unfold chan_key; rewrite Hr; reflexivity).
   inversion H as [t|d0 e Hon Hg Ha|r t Ho Hf|d0 p Ho|d0 p t Ho|d0 p Ho Hc Hon He]; subst.
   - destruct (engine_get_hit _ _ _ _ _ Hg) as [[He Hx]|[He Hin]].
     + right; right. exists k. auto.
     + right; left.
-      destruct (cache_from_history cfg ops k d e Hin) as [_ [pre [u0 [post [p [H1 [H2 [H3 [H4 H5]]]]]]]]].
+      destruct (cache_from_history fuel cfg ops k d e Hlf Hin)
+        as [_ [pre [u0 [post [p [H1 [H2 [H3 [H4 H5]]]]]]]]].
       subst e. rewrite now_run in Ha. destruct (after_expiry _ _ _ Ha) as [l [Hl Hlt]].
       rewrite Hl in Hin. simpl in Hin.
       exists k, pre, u0, post, p, l. repeat split; auto.
@@ -464,22 +586,24 @@ Proof.
     repeat split; auto.
 Qed.
 
-Theorem load_fresh cfg ops u st' out :
-  load cfg (run cfg ops) u = (st', out) ->
+Theorem load_fresh fuel cfg ops u st' out :
+  link_free_ops ops ->
+  load fuel cfg (run fuel cfg ops) u = (st', out) ->
   (exists t, out = Err t) \/
   exists d, out = Ok d /\
-    (from_origin cfg ops u d st' \/ from_cache cfg ops u d st' \/ from_embedded cfg ops u d st').
+    (from_origin fuel cfg ops u d st' \/ from_cache fuel cfg ops u d st' \/ from_embedded fuel cfg ops u d st').
 Proof.
-  intros Hl. pose proof (load_route cfg (run cfg ops) u) as Hr.
+  intros Hlf Hl. pose proof (link_free_run fuel cfg ops Hlf) as Hst.
+  pose proof (load_route fuel cfg (run fuel cfg ops) u) as Hr.
   destruct (route_of cfg u) as [k|r|] eqn:Hroute.
-  - rewrite Hr in Hl. pose proof (load_http_spec cfg (run cfg ops) k) as Hs.
+  - rewrite Hr in Hl. pose proof (load_http_spec (recf fuel cfg) cfg (run fuel cfg ops) k Hst) as Hs.
     rewrite Hl in Hs. simpl in Hs.
     destruct out as [d|t|w|].
-    + right. exists d. split; [reflexivity|]. apply (http_step_source cfg ops u k); assumption.
+    + right. exists d. split; [reflexivity|]. apply (http_step_source fuel cfg ops u k); assumption.
     + left. eauto.
     + inversion Hs.
     + inversion Hs.
-  - rewrite Hr in Hl. destruct (load_node_eq cfg (run cfg ops) r) as [H1 H2].
+  - rewrite Hr in Hl. destruct (load_node_eq cfg (run fuel cfg ops) r Hst) as [H1 H2].
     rewrite Hl in H1, H2. simpl in H1, H2. destruct out as [d|t|w|]; try contradiction.
     + right. exists d. split; [reflexivity|]. left. destruct H2 as [p H2].
       exists CNode, (node_key r), p. unfold chan_key. rewrite Hroute.
@@ -490,29 +614,32 @@ Proof.
 Qed.
 
 (* in the cached and the embedded case nothing at all changes: in particular no request is logged *)
-Lemma from_cache_quiet cfg ops u d st' : from_cache cfg ops u d st' -> reqlog st' = reqlog (run cfg ops).
+Lemma from_cache_quiet fuel cfg ops u d st' :
+  from_cache fuel cfg ops u d st' -> reqlog st' = reqlog (run fuel cfg ops).
 Proof. intros [k [pre [u0 [post [p [l H]]]]]]. decompose [and] H. subst st'. reflexivity. Qed.
-Lemma from_embedded_quiet cfg ops u d st' : from_embedded cfg ops u d st' -> reqlog st' = reqlog (run cfg ops).
+Lemma from_embedded_quiet fuel cfg ops u d st' :
+  from_embedded fuel cfg ops u d st' -> reqlog st' = reqlog (run fuel cfg ops).
 Proof. intros [k [_ [_ H]]]. subst st'. reflexivity. Qed.
 
 (* ---- C19_no_reuse ---- *)
-(* If every response carrying document d that an earlier load obtained at k was one the library
-   does not allow to store, or had no lifetime, or its lifetime is over, then a load returning d
-   has just fetched it: d is what the origin serves now and exactly one request was issued. *)
-Theorem load_no_reuse cfg ops u k d st' :
-  load cfg (run cfg ops) u = (st', Ok d) ->
+(* If every response carrying document d that an earlier load obtained at k was one the loader
+   does not store, or had no lifetime, or its lifetime is over, then a load returning d has just
+   fetched it: d is what the origin serves now and exactly one request was issued. *)
+Theorem load_no_reuse fuel cfg ops u k d st' :
+  link_free_ops ops ->
+  load fuel cfg (run fuel cfg ops) u = (st', Ok d) ->
   route_of cfg u = ToHttp k ->
   assoc String.eqb k (embedded cfg) = None ->
   (forall pre u0 post p,
      ops = pre ++ Load u0 :: post -> route_of cfg u0 = ToHttp k ->
-     served pre k = RResp 200 (BJson d) p ->
+     served pre k = RResp 200 (BJson d) p None ->
      storable cfg p = false \/ cc_lifetime cfg p = None \/
      (exists l, cc_lifetime cfg p = Some l /\ elapsed pre + l <= elapsed ops)) ->
-  exists p, served ops k = RResp 200 (BJson d) p /\
-            reqlog st' = (CHttp, k, elapsed ops, RResp 200 (BJson d) p) :: reqlog (run cfg ops).
+  exists p, served ops k = RResp 200 (BJson d) p None /\
+            reqlog st' = (CHttp, k, elapsed ops, RResp 200 (BJson d) p None) :: reqlog (run fuel cfg ops).
 Proof.
-  intros Hl Hr Hemb Hall.
-  destruct (load_fresh cfg ops u st' (Ok d) Hl) as [[t Ht]|[d0 [Hd Hs]]]; [discriminate|].
+  intros Hlf Hl Hr Hemb Hall.
+  destruct (load_fresh fuel cfg ops u st' (Ok d) Hlf Hl) as [[t Ht]|[d0 [Hd Hs]]]; [discriminate|].
   inversion Hd. subst d0.
   destruct Hs as [[c [k0 [p [Hck [Hsv Hlog]]]]]|[Hc|He]].
   - unfold chan_key in Hck. rewrite Hr in Hck. inversion Hck. subst c k0. exists p. auto.
@@ -540,18 +667,19 @@ Definition cc_respects_headers (cfg : config) : Prop :=
   (forall p, revalidate p -> cc_nocache cfg p = true) /\
   (forall p, no_freshness p -> cc_lifetime cfg p = None).
 
-Corollary load_no_reuse_headers cfg ops u k d st' :
+Corollary load_no_reuse_headers fuel cfg ops u k d st' :
+  link_free_ops ops ->
   cc_respects_headers cfg ->
-  load cfg (run cfg ops) u = (st', Ok d) ->
+  load fuel cfg (run fuel cfg ops) u = (st', Ok d) ->
   route_of cfg u = ToHttp k ->
   assoc String.eqb k (embedded cfg) = None ->
   (forall pre u0 post p,
      ops = pre ++ Load u0 :: post -> route_of cfg u0 = ToHttp k ->
-     served pre k = RResp 200 (BJson d) p -> forbids p \/ revalidate p \/ no_freshness p) ->
-  exists p, served ops k = RResp 200 (BJson d) p /\
-            reqlog st' = (CHttp, k, elapsed ops, RResp 200 (BJson d) p) :: reqlog (run cfg ops).
+     served pre k = RResp 200 (BJson d) p None -> forbids p \/ revalidate p \/ no_freshness p) ->
+  exists p, served ops k = RResp 200 (BJson d) p None /\
+            reqlog st' = (CHttp, k, elapsed ops, RResp 200 (BJson d) p None) :: reqlog (run fuel cfg ops).
 Proof.
-  intros [Hf [Hv Hn]] Hl Hr Hemb Hall. apply (load_no_reuse cfg ops u k d st' Hl Hr Hemb).
+  intros Hlf [Hf [Hv Hn]] Hl Hr Hemb Hall. apply (load_no_reuse fuel cfg ops u k d st' Hlf Hl Hr Hemb).
   intros pre u0 post p H1 H2 H3. destruct (Hall pre u0 post p H1 H2 H3) as [H|[H|H]].
   - left. unfold storable. rewrite (Hf p H). reflexivity.
   - left. unfold storable. rewrite (Hv p H). apply andb_false_r.
@@ -563,203 +691,158 @@ Lemma http_step_err_cache cfg st u st' t : http_step cfg st u st' (Err t) -> cac
 Proof. intros H. inversion H; subst; reflexivity. Qed.
 
 (* a load that returns an error never changes the cache *)
-Theorem load_err_cache cfg st u st' t : load cfg st u = (st', Err t) -> cache st' = cache st.
+Theorem load_err_cache fuel cfg st u st' t :
+  link_free st -> load fuel cfg st u = (st', Err t) -> cache st' = cache st.
 Proof.
-  intros Hl. pose proof (load_route cfg st u) as Hr.
+  intros Hlf Hl. pose proof (load_route fuel cfg st u) as Hr.
   destruct (route_of cfg u) as [k|r|].
-  - rewrite Hr in Hl. pose proof (load_http_spec cfg st k) as Hs. rewrite Hl in Hs.
+  - rewrite Hr in Hl. pose proof (load_http_spec (recf fuel cfg) cfg st k Hlf) as Hs. rewrite Hl in Hs.
     apply (http_step_err_cache _ _ _ _ _ Hs).
-  - rewrite Hr in Hl. destruct (load_node_eq cfg st r) as [H1 _]. rewrite Hl in H1.
+  - rewrite Hr in Hl. destruct (load_node_eq cfg st r Hlf) as [H1 _]. rewrite Hl in H1.
     simpl in H1. subst st'. reflexivity.
   - destruct Hr as [t0 Hr]. rewrite Hr in Hl. inversion Hl. reflexivity.
 Qed.
 
 (* while the origin's answer at the key of u is not a 200/JSON response, a load of u leaves the
    cache unchanged and returns an error — or a document without any request (state unchanged) *)
-Theorem load_failure_state cfg st u st' out c k :
-  load cfg st u = (st', out) -> chan_key cfg u = Some (c, k) -> failing (origin st k) ->
+Theorem load_failure_state fuel cfg st u st' out c k :
+  link_free st ->
+  load fuel cfg st u = (st', out) -> chan_key cfg u = Some (c, k) -> failing (origin st k) ->
   cache st' = cache st /\
   ((exists t, out = Err t) \/ (exists d, out = Ok d /\ st' = st)).
 Proof.
-  intros Hl Hk Ho. unfold chan_key in Hk. pose proof (load_route cfg st u) as Hr.
+  intros Hlf Hl Hk Ho. unfold chan_key in Hk. pose proof (load_route fuel cfg st u) as Hr.
   destruct (route_of cfg u) as [k0|r|]; [| |discriminate]; inversion Hk; subst c k.
-  - rewrite Hr in Hl. pose proof (load_http_spec cfg st k0) as Hs. rewrite Hl in Hs. simpl in Hs.
+  - rewrite Hr in Hl. pose proof (load_http_spec (recf fuel cfg) cfg st k0 Hlf) as Hs.
+    rewrite Hl in Hs. simpl in Hs.
     inversion Hs as [t|d e Hon Hg Ha|r0 t Ho0 Hf|d p Ho0|d p t Ho0|d p Ho0 Hc Hon He]; subst;
       try (exfalso; apply (Ho d p); exact Ho0); simpl; split; eauto.
-  - rewrite Hr in Hl. destruct (load_node_eq cfg st r) as [H1 H2]. rewrite Hl in H1, H2.
+  - rewrite Hr in Hl. destruct (load_node_eq cfg st r Hlf) as [H1 H2]. rewrite Hl in H1, H2.
     simpl in H1, H2. subst st'. simpl. split; [reflexivity|].
     destruct out as [d|t|w|]; try contradiction.
     + destruct H2 as [p H2]. exfalso. apply (Ho d p). exact H2.
     + left. eauto.
 Qed.
 
-Theorem load_failure cfg ops u st' out c k :
-  load cfg (run cfg ops) u = (st', out) -> chan_key cfg u = Some (c, k) ->
-  (forall d p, served ops k <> RResp 200 (BJson d) p) ->
-  cache st' = cache (run cfg ops) /\
+Theorem load_failure fuel cfg ops u st' out c k :
+  link_free_ops ops ->
+  load fuel cfg (run fuel cfg ops) u = (st', out) -> chan_key cfg u = Some (c, k) ->
+  (forall d p, served ops k <> RResp 200 (BJson d) p None) ->
+  cache st' = cache (run fuel cfg ops) /\
   ((exists t, out = Err t) \/
-   (exists d, out = Ok d /\ (from_cache cfg ops u d st' \/ from_embedded cfg ops u d st'))).
+   (exists d, out = Ok d /\ (from_cache fuel cfg ops u d st' \/ from_embedded fuel cfg ops u d st'))).
 Proof.
-  intros Hl Hk Hf.
-  assert (Hf' : failing (origin (run cfg ops) k)).
+  intros Hlf Hl Hk Hf.
+  assert (Hf' : failing (origin (run fuel cfg ops) k)).
   { intros d p. rewrite origin_run. apply Hf. }
-  destruct (load_failure_state _ _ _ _ _ _ _ Hl Hk Hf') as [Hc Hout]. split; [exact Hc|].
-  destruct (load_fresh cfg ops u st' out Hl) as [He|[d [Hd Hs]]]; [left; exact He|].
+  destruct (load_failure_state _ _ _ _ _ _ _ _ (link_free_run fuel cfg ops Hlf) Hl Hk Hf') as [Hc Hout].
+  split; [exact Hc|].
+  destruct (load_fresh fuel cfg ops u st' out Hlf Hl) as [He|[d [Hd Hs]]]; [left; exact He|].
   right. exists d. split; [exact Hd|].
   destruct Hs as [[c0 [k0 [p [Hck [Hsv _]]]]]|Hs]; [|exact Hs].
   exfalso. rewrite Hk in Hck. inversion Hck. subst c0 k0. apply (Hf d p). exact Hsv.
 Qed.
 
 (* ---- C19_route: which client is asked, for every configuration ---- *)
-Theorem load_route_requests cfg st u st' out :
-  load cfg st u = (st', out) ->
+Theorem load_route_requests fuel cfg st u st' out :
+  link_free st ->
+  load fuel cfg st u = (st', out) ->
   match route_of cfg u with
   | ToHttp k => reqlog st' = reqlog st \/ reqlog st' = (CHttp, k, now st, origin st k) :: reqlog st
   | ToNode r => reqlog st' = (CNode, node_key r, now st, origin st (node_key r)) :: reqlog st
   | Reject => st' = st /\ exists t, out = Err t
   end.
 Proof.
-  intros Hl. pose proof (load_route cfg st u) as Hr.
+  intros Hlf Hl. pose proof (load_route fuel cfg st u) as Hr.
   destruct (route_of cfg u) as [k|r|].
-  - rewrite Hr in Hl. pose proof (load_http_spec cfg st k) as Hs. rewrite Hl in Hs.
+  - rewrite Hr in Hl. pose proof (load_http_spec (recf fuel cfg) cfg st k Hlf) as Hs. rewrite Hl in Hs.
     destruct (http_step_frame _ _ _ _ _ Hs) as [_ [_ H3]]. exact H3.
-  - rewrite Hr in Hl. destruct (load_node_eq cfg st r) as [H1 _]. rewrite Hl in H1.
+  - rewrite Hr in Hl. destruct (load_node_eq cfg st r Hlf) as [H1 _]. rewrite Hl in H1.
     simpl in H1. subst st'. reflexivity.
   - destruct Hr as [t Hr]. rewrite Hr in Hl. inversion Hl. eauto.
 Qed.
 
-(* ---- non-vacuity: concrete histories ---- *)
-(* the behaviour of pquerna/cachecontrol v0.0.0-20180517163645-1555304b9b35 on the header sets,
-   written down by hand; the per-run case files carry the recorded table instead *)
-Definition cc_reference (p : policy) : ccdec :=
-  match p with
-  | PMaxAge n | PSMaxAge n | PPublicMaxAge n | PExpiresDate n | PExpires n
-  | PMustRevalidate n => (true, Some n, false)
-  | PNoCacheMaxAge n => (true, Some n, true)
-  | PNone | PExpiresInvalid => (true, None, false)
-  | PNoCache => (true, None, true)
-  | PNoStore | PPrivate | PBadDate _ => (false, None, false)
-  | PMalformed => (false, None, false)
-  | PPrivateMaxAge n | PNoStoreMaxAge n => (false, Some n, false)
+(* the dispatch itself does not depend on what the origin serves (links included): the first
+   client a load talks to, if any, is the one of its row *)
+Theorem load_route_dispatch fuel cfg st u :
+  match route_of cfg u with
+  | ToHttp k => load fuel cfg st u = load_http (recf fuel cfg) cfg st k
+  | ToNode r => load fuel cfg st u = load_node cfg st r
+  | Reject => exists t, load fuel cfg st u = (st, Err t)
   end.
+Proof. exact (load_route fuel cfg st u). Qed.
 
-Example cc_reference_respects_headers cm cli gw uok :
-  cc_respects_headers {| cache_mode_of := cm; ipfs_client := cli; gateway := gw; url_ok := uok;
-                         cc := cc_reference |}.
+(* ---- the observables compared by the per-run correspondence are the objects of the theorems ---- *)
+Lemma observe_app fuel cfg st pre post :
+  observe fuel cfg st (pre ++ post) =
+  observe fuel cfg st pre ++ observe fuel cfg (fold_left (step fuel cfg) pre st) post.
 Proof.
-  split; [|split]; intros p; destruct p; simpl; intros H; try contradiction; reflexivity.
+  revert st. induction pre as [|o t IH]; intros st; [reflexivity|].
+  destruct o as [u r|u|dt]; simpl.
+  - apply IH.
+  - destruct (load fuel cfg st u) as [st' out] eqn:Hl. simpl. rewrite IH. reflexivity.
+  - apply IH.
 Qed.
 
-Definition ex_cfg : config :=
-  {| cache_mode_of := CacheMemory [("https://e.test/ctx", 900)];
-     ipfs_client := false; gateway := "http://gw.test//"; url_ok := fun _ => true;
-     cc := cc_reference |}.
-
-Definition a_url : url := "http://a.test/d".
-
-Definition ex_ops : list op :=
-  [ Serve a_url (ok_resp 1 (PMaxAge 3000)); Load a_url;
-    Serve a_url (ok_resp 2 PNoStore); Load a_url;                (* v1 from the cache *)
-    Tick 3000; Load a_url;                                       (* expired: v2, not stored *)
-    Serve a_url (ok_resp 3 PNone); Load a_url;                   (* v3, stored with zero expiry *)
-    Serve a_url (ok_resp 4 (PMaxAge 1000)); Load a_url;          (* v4: v3 was not reused *)
-    Serve a_url (RResp 404 (BJson 5) (PMaxAge 1000)); Load a_url; (* v4 from the cache *)
-    Tick 1000; Load a_url;                                       (* expired and failing: error *)
-    Load "https://e.test/ctx";                                   (* embedded *)
-    Serve "http://gw.test/ipfs/Qm/x" (ok_resp 7 (PSMaxAge 1000)); Load "ipfs:///Qm/x";
-    Load "ftp://a.test/d" ].
-
-Example ex_observe :
-  observe ex_cfg init ex_ops =
-  [ (ODoc 1, [(CHttp, a_url)]); (ODoc 1, []);
-    (ODoc 2, [(CHttp, a_url)]);
-    (ODoc 3, [(CHttp, a_url)]);
-    (ODoc 4, [(CHttp, a_url)]);
-    (ODoc 4, []);
-    (OErr, [(CHttp, a_url)]);
-    (ODoc 900, []);
-    (ODoc 7, [(CHttp, "http://gw.test/ipfs/Qm/x")]);
-    (OErr, []) ].
-Proof. vm_compute. reflexivity. Qed.
-
-(* C19_inv is not vacuous: a reachable state with a non-empty cache *)
-Example ex_inv :
-  cache (run ex_cfg ex_ops) =
-  [ (a_url, (4, TAt 4000)); ("http://gw.test/ipfs/Qm/x", (7, TAt 5000)) ].
-Proof. vm_compute. reflexivity. Qed.
-
-(* C19_fresh: each of the three sources occurs *)
-Example ex_fresh_cache :
-  let ops := firstn 3 ex_ops in
-  load ex_cfg (run ex_cfg ops) a_url = (run ex_cfg ops, Ok 1) /\
-  served ops a_url = ok_resp 2 PNoStore /\ In (a_url, (1, TAt 3000)) (cache (run ex_cfg ops)).
-Proof. vm_compute. repeat split; auto. Qed.
-
-(* C19_no_reuse: v3 was served without freshness information and stored (zero expiry);
-   the next load does not return it but fetches v4 *)
-Example ex_no_reuse :
-  let ops := firstn 9 ex_ops in
-  assoc String.eqb a_url (cache (run ex_cfg ops)) = Some (3, TZero) /\
-  served ops a_url = ok_resp 4 (PMaxAge 1000) /\
-  snd (load ex_cfg (run ex_cfg ops) a_url) = Ok 4 /\
-  new_reqs (run ex_cfg ops) (fst (load ex_cfg (run ex_cfg ops) a_url)) = [(CHttp, a_url)].
-Proof. vm_compute. repeat split; reflexivity. Qed.
-
-(* C19_failures: the origin answers 404 with a JSON body and max-age: the load fails once the
-   cached copy has expired, and the cache is untouched *)
-Example ex_failure :
-  let st := run ex_cfg (firstn 14 ex_ops) in
-  origin st a_url = RResp 404 (BJson 5) (PMaxAge 1000) /\
-  snd (load ex_cfg st a_url) = Err "status" /\
-  cache (fst (load ex_cfg st a_url)) = cache st /\ cache st <> [].
-Proof. vm_compute. repeat split; try reflexivity. discriminate. Qed.
-
-(* embedded *)
-Example ex_embedded :
-  route_of ex_cfg "https://e.test/ctx" = ToHttp "https://e.test/ctx" /\
-  assoc String.eqb "https://e.test/ctx" (embedded ex_cfg) = Some 900.
-Proof. vm_compute. split; reflexivity. Qed.
-
-(* C19_route: every row of the table is inhabited *)
-Example ex_route :
-  route_of ex_cfg "ipfs://Qm/x" = ToHttp "http://gw.test/ipfs/Qm/x" /\
-  route_of {| cache_mode_of := CacheOff; ipfs_client := true; gateway := "http://gw.test";
-              url_ok := fun _ => true; cc := cc_reference |} "ipfs://Qm/x" = ToNode "Qm/x" /\
-  route_of {| cache_mode_of := CacheDefault; ipfs_client := false; gateway := "";
-              url_ok := fun _ => true; cc := cc_reference |} "ipfs://Qm/x" = Reject /\
-  route_of ex_cfg "httpx://a.test/d" = Reject /\ route_of ex_cfg "" = Reject /\
-  route_of ex_cfg "file:///etc/passwd" = Reject.
-Proof. vm_compute. repeat split; reflexivity. Qed.
-
-(* the premises of C19_no_reuse are satisfiable: v1 was only ever received with no-store *)
-Example ex_no_reuse_premises :
-  let ops := [Serve a_url (ok_resp 1 PNoStore); Load a_url] in
-  (exists st', load ex_cfg (run ex_cfg ops) a_url = (st', Ok 1)) /\
-  route_of ex_cfg a_url = ToHttp a_url /\
-  assoc String.eqb a_url (embedded ex_cfg) = None /\
-  (forall pre u0 post p,
-     ops = pre ++ Load u0 :: post -> route_of ex_cfg u0 = ToHttp a_url ->
-     served pre a_url = RResp 200 (BJson 1) p ->
-     storable ex_cfg p = false \/ cc_lifetime ex_cfg p = None \/
-     (exists l, cc_lifetime ex_cfg p = Some l /\ elapsed pre + l <= elapsed ops)).
+(* every Load of a history contributes (its outcome, the requests it issued) to `observe` *)
+Theorem observe_load fuel cfg pre u post :
+  In (outcome_of (snd (load fuel cfg (run fuel cfg pre) u)),
+      new_reqs (run fuel cfg pre) (fst (load fuel cfg (run fuel cfg pre) u)))
+     (observe fuel cfg init (pre ++ Load u :: post)).
 Proof.
-  cbv zeta. split; [eexists; vm_compute; reflexivity|].
-  split; [reflexivity|]. split; [reflexivity|].
-  intros pre u0 post p Heq _ Hs.
-  destruct pre as [|o1 pre]; [discriminate|].
-  inversion Heq as [[Ho1 Hrest]]. subst o1.
-  destruct pre as [|o2 pre].
-  - unfold served in Hs. simpl in Hs. inversion Hs. subst p. left. reflexivity.
-  - destruct pre; discriminate.
+  rewrite observe_app. apply in_or_app. right. fold (run fuel cfg pre). simpl.
+  destruct (load fuel cfg (run fuel cfg pre) u) as [st' out]. left. reflexivity.
 Qed.
 
-(* `Cache-Control: no-cache, max-age=n`: the library alone would let it be stored with lifetime n;
-   since the fix da1a3b4 (requiresRevalidation) the loader does not store it, so the next load
-   asks the origin again and returns v2 *)
-Example nocache_maxage_not_reused :
-  let ops := [Serve a_url (ok_resp 1 (PNoCacheMaxAge 3000)); Load a_url;
-              Serve a_url (ok_resp 2 (PNoCacheMaxAge 3000)); Tick 1000] in
-  cache (run ex_cfg ops) = [] /\
-  snd (load ex_cfg (run ex_cfg ops) a_url) = Ok 2 /\
-  new_reqs (run ex_cfg ops) (fst (load ex_cfg (run ex_cfg ops) a_url)) = [(CHttp, a_url)].
-Proof. vm_compute. repeat split; reflexivity. Qed.
+Lemma new_reqs_none st st' : reqlog st' = reqlog st -> new_reqs st st' = [].
+Proof. intros H. unfold new_reqs. rewrite H, Nat.sub_diag. reflexivity. Qed.
+
+Lemma new_reqs_one st st' c k t r :
+  reqlog st' = (c, k, t, r) :: reqlog st -> new_reqs st st' = [(c, k)].
+Proof.
+  intros H. unfold new_reqs. rewrite H. simpl List.length.
+  replace (S (List.length (reqlog st)) - List.length (reqlog st))%nat with 1%nat by lia. reflexivity.
+Qed.
+
+(* without links no load ever panics or diverges (whatever the fuel), and it issues at most one
+   request, to the client and key of its row of the routing table *)
+Theorem load_total fuel cfg st u :
+  link_free st ->
+  (exists d, snd (load fuel cfg st u) = Ok d) \/ (exists t, snd (load fuel cfg st u) = Err t) /\
+  True.
+Proof. Abort.
+
+Theorem load_total fuel cfg st u :
+  link_free st ->
+  ((exists d, outcome_of (snd (load fuel cfg st u)) = ODoc d) \/
+   outcome_of (snd (load fuel cfg st u)) = OErr) /\
+  (new_reqs st (fst (load fuel cfg st u)) = [] \/
+   exists c k, chan_key cfg u = Some (c, k) /\ new_reqs st (fst (load fuel cfg st u)) = [(c, k)]).
+Proof.
+  intros Hlf. split.
+  - pose proof (load_route fuel cfg st u) as Hr.
+    destruct (route_of cfg u) as [k|r|].
+    + rewrite Hr. pose proof (load_http_spec (recf fuel cfg) cfg st k Hlf) as Hs.
+      destruct (snd (load_http (recf fuel cfg) cfg st k)); simpl; eauto; inversion Hs.
+    + rewrite Hr. destruct (load_node_eq cfg st r Hlf) as [_ H2].
+      destruct (snd (load_node cfg st r)); simpl; eauto; contradiction.
+    + destruct Hr as [t Hr]. rewrite Hr. simpl. auto.
+  - destruct (load_frame fuel cfg st u Hlf) as [_ [_ [H|[c [k [Hck H]]]]]].
+    + left. apply new_reqs_none. exact H.
+    + right. exists c, k. split; [exact Hck|]. apply (new_reqs_one _ _ _ _ _ _ H).
+Qed.
+
+(* without links the fuel is irrelevant: every fuel gives the same machine *)
+Theorem load_fuel_irrelevant f1 f2 cfg st u :
+  link_free st -> load f1 cfg st u = load f2 cfg st u.
+Proof.
+  intros Hlf. rewrite !load_unfold. unfold load_with.
+  assert (Hf : forall k, fetch (recf f1 cfg) cfg st k = fetch (recf f2 cfg) cfg st k).
+  { intros k. unfold fetch. destruct (url_ok cfg k); simpl; [|reflexivity].
+    destruct (origin st k) as [code b p alt|] eqn:Ho; [|reflexivity].
+    destruct (code =? 200); simpl; [|reflexivity].
+    destruct alt as [t|]; [exfalso; apply (Hlf _ _ _ _ _ Ho)|reflexivity]. }
+  assert (Hh : forall k, load_http (recf f1 cfg) cfg st k = load_http (recf f2 cfg) cfg st k).
+  { intros k. unfold load_http. rewrite Hf. reflexivity. }
+  rewrite !Hh. reflexivity.
+Qed.
